@@ -646,14 +646,24 @@ func (w *World) prelude() string {
 (declare-sort SV 0)
 (declare-fun bytes (Int Int) (_ BitVec 8))
 (declare-fun sv (Str) SV)
+(declare-fun catarr (Str Str) Int)
+(declare-fun svcat (SV SV) SV)
+(declare-fun svlen (SV) Int)
+(declare-fun svbyte (SV Int) (_ BitVec 8))
+(declare-fun idx (Int Int) Int)
+(assert (forall ((o Int) (i Int)) (! (= (idx o i) (+ o i)) :pattern ((idx o i)))))
+(assert (forall ((s Str)) (! (=> (<= 0 (s.len s)) (= (svlen (sv s)) (s.len s))) :pattern ((sv s)))))
+(assert (forall ((s Str) (i Int)) (! (=> (and (<= 0 i) (< i (s.len s))) (= (svbyte (sv s) i) (bytes (s.arr s) (idx (s.off s) i)))) :pattern ((svbyte (sv s) i)))))
+(assert (forall ((a Str) (b Str) (i Int)) (! (and (=> (and (<= 0 i) (< i (s.len a))) (= (bytes (catarr a b) i) (bytes (s.arr a) (idx (s.off a) i)))) (=> (and (<= (s.len a) i) (< i (+ (s.len a) (s.len b)))) (= (bytes (catarr a b) i) (bytes (s.arr b) (idx (s.off b) (- i (s.len a))))))) :pattern ((bytes (catarr a b) i)))))
+(assert (forall ((a Str) (b Str)) (! (=> (and (<= 0 (s.len a)) (<= 0 (s.len b))) (and (= (sv (mkstr (catarr a b) 0 (+ (s.len a) (s.len b)))) (svcat (sv a) (sv b))) (=> (= (s.len b) 0) (= (svcat (sv a) (sv b)) (sv a))) (=> (= (s.len a) 0) (= (svcat (sv a) (sv b)) (sv b))))) :pattern ((catarr a b)))))
+(declare-fun strof (SV) Str)
+(assert (forall ((v SV)) (! (and (= (sv (strof v)) v) (<= 0 (s.len (strof v))) (<= 0 (s.off (strof v))) (< (+ (s.off (strof v)) (s.len (strof v))) 281474976710656)) :pattern ((strof v)))))
 (declare-fun strcmp (SV SV) Int)
 (assert (forall ((a SV) (b SV)) (! (= (= (strcmp a b) 0) (= a b)) :pattern ((strcmp a b)))))
 (assert (forall ((a SV) (b SV)) (! (= (< (strcmp a b) 0) (> (strcmp b a) 0)) :pattern ((strcmp a b)))))
 (assert (forall ((a SV) (b SV) (c SV)) (! (=> (and (< (strcmp a b) 0) (< (strcmp b c) 0)) (< (strcmp a c) 0)) :pattern ((strcmp a b) (strcmp b c)))))
 (declare-fun alive0 (Int) Bool)
 (declare-fun aliveA0 (Int) Bool)
-(declare-fun idx (Int Int) Int)
-(assert (forall ((o Int) (i Int)) (! (= (idx o i) (+ o i)) :pattern ((idx o i)))))
 (define-fun b2i ((b Bool)) Int (ite b 1 0))
 (define-fun max ((a Int) (b Int)) Int (ite (>= a b) a b))
 (define-fun min ((a Int) (b Int)) Int (ite (<= a b) a b))
